@@ -670,7 +670,15 @@ class Compu:
             # g(f(x)) == x  <=>  g.slope * f.slope == 1 and g(f(0)) == 0
             return g.slope * f.slope == 1 and g.linear(f.linear(Fraction(0))) == 0
         if cat == "SCALE-RAT-FUNC":
-            return False
+            # only the simplest form: one affine scale with its exact affine inverse
+            if not self.has_p2i or len(self.scales) != 1 or len(self.inv_scales) != 1:
+                return False
+            f, g = self.scales[0], self.inv_scales[0]
+            if not (f.affine and g.affine) or f.n1 == 0 or g.n1 == 0:
+                return False
+            if self.int_physical and abs(f.slope) < 1:
+                return False
+            return g.slope * f.slope == 1 and g.linear(f.linear(Fraction(0))) == 0
         if cat == "TAB-INTP":
             if len(self.points) < 2:
                 return False
@@ -729,6 +737,11 @@ class Compu:
                 return False  # the junction itself is excluded
             if a.lo.finite and a.lo.value > a.hi.value:
                 return False
-            if a.linear(a.hi.value) != b.linear(b.lo.value):
-                return False
+            ya, yb = a.linear(a.hi.value), b.linear(b.lo.value)
+            if ya != yb:
+                # coefficients are xsd:double: two segments written with decimal fractions
+                # (0.1 x and -2.8 + 0.5 x at x = 7) meet up to the rounding of their literals;
+                # that is continuity as far as a description in doubles can express it
+                if abs(ya - yb) > Fraction(1, 10**12) * max(1, abs(ya), abs(yb)):
+                    return False
         return True
